@@ -34,7 +34,8 @@ Oracle  :
   (H) the pause holds     after (E), with no request of any kind and no timed Pause/Hold in the case, the run is still Paused
                           HOLD ticks later (a run that resumes by itself was not paused)   error-pause-not-held
   (R) responsiveness      bounded response after the campaign:
-        stop   user Stop is accepted unless Stopped/Restarting, and System State is Stopped within 3 ticks
+        stop   user Stop is accepted unless Stopped/Restarting, and System State is Stopped within 4 + (number of command
+               requests pending at that moment) ticks
                                                                      unresponsive:stop-rejected / unresponsive:stop
         fix    the run sits in Error + Paused: the method is replaced by a corrected one (failed lines replaced by
                benign ones, not yet touched statements dropped, trailing 'Mark: tail' appended), Unpause, and the
@@ -137,17 +138,20 @@ def _epilogue_stop(c: D.Campaign, viol, info):
         viol("unresponsive:restarting:%s" % _orphan(c), "System State still Restarting 3 ticks after the campaign")
         return
     before = h.state
+    # Stop itself takes 2 ticks; every command request that is executed before it and fails costs one more tick (a raising command
+    # ends the command phase of that tick), so the bound is derived from what is pending when Stop is requested
+    bound = 4 + len(c._names_pending())
     if not c.user("Stop"):
         viol("unresponsive:stop-rejected", "user Stop rejected in state %s" % before)
         return
-    for _ in range(3):
+    for _ in range(bound):
         if c.tick().raised is not None:
             return
         if h.state == "Stopped":
             info["stop:ok"] = 1
             return
-    viol("unresponsive:stop:%s" % _orphan(c), "user Stop accepted in state %s but System State is %s (Method Status %s) 3 ticks later"
-         % (before, h.state, h.tagv("Method Status")))
+    viol("unresponsive:stop:%s" % _orphan(c), "user Stop accepted in state %s but System State is %s (Method Status %s) %d ticks later"
+         % (before, h.state, h.tagv("Method Status"), bound))
 
 
 def _corrected(lines, touched: set, failed: set):
@@ -188,6 +192,14 @@ def _corrected(lines, touched: set, failed: set):
         prev_ind, prev_text = ind, l[1]
     if D.is_container(prev_text):
         return None, "empty-body-opener"
+    # a macro call needs its definition earlier in the corrected method (the generator may place a call before / without it)
+    defined: set = set()
+    for l in kept:
+        ind, rest = D.split_indent(l[1])
+        if ind == 0 and rest.startswith("Macro: "):
+            defined.add(rest[len("Macro: "):])
+        elif rest.startswith("Call macro: ") and rest[len("Call macro: "):] not in defined:
+            return None, "call-of-undefined-macro"
     # a Block inside an Alarm body re-acquires the block lock on every invocation and can starve a Block of the main flow
     # (lock fairness is not this property): such methods are not judged
     stack: list = []
@@ -366,6 +378,11 @@ def judge(case, c: D.Campaign, viol, info):
                 if lid in reached or lid not in texts:
                     continue
                 kind = D.bad_kind(texts[lid], all_texts)
+                if _k2_class(kind, texts[lid]) == "condition" and lid not in r.failed and r.foreign:
+                    # something was cancelled / forced by request: a cancelled Watch/Alarm legitimately never evaluates its condition
+                    reached.add(lid)
+                    info["bad-condition-after-cancel-request"] = 1
+                    continue
                 if _k2_class(kind, texts[lid]) == "condition" and lid not in r.failed and lid not in registered:
                     # a Watch/Alarm evaluates its condition only after its interrupt has been registered (how long that takes after
                     # 'started' depends on where the line sits): its clock starts with the scope-start event for that line
